@@ -86,8 +86,8 @@ def run(tier, seed):
     wd = vlib.workdir("c11")
     c.assumptions = ["audits are taken at quiescent points (no statement running, no session open)",
                      "pages of relations whose catalog row is dead (creator aborted / dropped) are not walked: they belong to whoever got them since",
-                     "rows with overflow chains live in tables that are never rewritten (UPDATE / DELETE / VACUUM) and tables whose interior pages reference an "
-                     "overflow chain are not rewritten either: exact avoidance of the recorded finding SeparatorAliasesOverflowChain, decided from the audit itself",
+                     "two of the three tables hold rows that continue in overflow chains; they are updated, deleted and vacuumed like the others "
+                     "(before the separator fix 3a55300 such rows could not be rewritten without freeing a chain a separator still referenced)",
                      "workloads are drawn from the vetted seed pool pools/pages.json (DESIGN.md, seed pools)"]
     model_check(c, tier)
     pool = load_pool(KIND)
